@@ -389,6 +389,14 @@ func (v *pkgView) opString(hasShape string) (rows []nameRow, empty string, strip
 				}
 			}
 			problems = append(problems, v.src(s))
+		case *ast.RangeStmt:
+			// table-driven form: for _, n := range TABLE { if o.Has(n.F) { b.WriteString("SEP"); b.WriteString(n.G) } }
+			// with TABLE a package-level array/slice literal of struct literals whose fields are constants
+			if r, ok := v.opStringTableLoop(x, recv, builder, hasShape); ok {
+				rows = append(rows, r...)
+				continue
+			}
+			problems = append(problems, v.src(s))
 		case *ast.ReturnStmt:
 			// return b.String()[N:]
 			if len(x.Results) == 1 {
@@ -413,6 +421,171 @@ func (v *pkgView) opString(hasShape string) (rows []nameRow, empty string, strip
 		strip = 0
 	}
 	return
+}
+
+// opStringTableLoop recognises the table-driven spelling of Op.String's body (see opString).
+func (v *pkgView) opStringTableLoop(x *ast.RangeStmt, recv, builder, hasShape string) ([]nameRow, bool) {
+	if hasShape != "HAndNe0" || x.Value == nil || len(x.Body.List) != 1 {
+		return nil, false
+	}
+	if k, ok := x.Key.(*ast.Ident); !ok || k.Name != "_" {
+		return nil, false
+	}
+	elem, ok := x.Value.(*ast.Ident)
+	if !ok {
+		return nil, false
+	}
+	ifs, ok := x.Body.List[0].(*ast.IfStmt)
+	if !ok || ifs.Init != nil || ifs.Else != nil {
+		return nil, false
+	}
+	call, ok := ifs.Cond.(*ast.CallExpr)
+	if !ok || len(call.Args) != 1 {
+		return nil, false
+	}
+	sel, ok := call.Fun.(*ast.SelectorExpr)
+	if !ok || sel.Sel.Name != "Has" || v.src(sel.X) != recv {
+		return nil, false
+	}
+	opSel, ok := call.Args[0].(*ast.SelectorExpr)
+	if !ok || v.src(opSel.X) != elem.Name {
+		return nil, false
+	}
+	opField := opSel.Sel.Name
+	// body: WriteString of constants and of exactly one n.G, in order
+	prefix, nameField, suffix := "", "", ""
+	for _, st := range ifs.Body.List {
+		es, ok := st.(*ast.ExprStmt)
+		if !ok {
+			return nil, false
+		}
+		wc, ok := es.X.(*ast.CallExpr)
+		if !ok || v.src(wc.Fun) != builder+".WriteString" || len(wc.Args) != 1 {
+			return nil, false
+		}
+		if tv, ok := v.pkg.TypesInfo.Types[wc.Args[0]]; ok && tv.Value != nil && tv.Value.Kind() == constant.String {
+			if nameField == "" {
+				prefix += constant.StringVal(tv.Value)
+			} else {
+				suffix += constant.StringVal(tv.Value)
+			}
+			continue
+		}
+		fs, ok := wc.Args[0].(*ast.SelectorExpr)
+		if !ok || v.src(fs.X) != elem.Name || nameField != "" {
+			return nil, false
+		}
+		nameField = fs.Sel.Name
+	}
+	if nameField == "" {
+		return nil, false
+	}
+	// the table: a package-level variable initialised by a composite literal, never assigned elsewhere
+	tid, ok := x.X.(*ast.Ident)
+	if !ok {
+		return nil, false
+	}
+	var lit *ast.CompositeLit
+	assigned := false
+	for _, f := range v.pkg.Syntax {
+		ast.Inspect(f, func(n ast.Node) bool {
+			switch y := n.(type) {
+			case *ast.ValueSpec:
+				for i, nm := range y.Names {
+					if nm.Name == tid.Name && v.pkg.TypesInfo.Defs[nm] == v.pkg.TypesInfo.Uses[tid] && i < len(y.Values) {
+						if cl, ok := y.Values[i].(*ast.CompositeLit); ok {
+							lit = cl
+						}
+					}
+				}
+			case *ast.AssignStmt:
+				for _, l := range y.Lhs {
+					if strings.HasPrefix(v.src(l), tid.Name+"[") || v.src(l) == tid.Name {
+						if id := rootIdent(l); id != nil && v.pkg.TypesInfo.Uses[id] == v.pkg.TypesInfo.Uses[tid] {
+							assigned = true
+						}
+					}
+				}
+			}
+			return true
+		})
+	}
+	if lit == nil || assigned {
+		return nil, false
+	}
+	st, ok := v.pkg.TypesInfo.Types[lit].Type.Underlying().(interface{ Elem() types.Type })
+	if !ok {
+		return nil, false
+	}
+	stt, ok := st.Elem().Underlying().(*types.Struct)
+	if !ok {
+		return nil, false
+	}
+	fieldIdx := func(name string) int {
+		for i := 0; i < stt.NumFields(); i++ {
+			if stt.Field(i).Name() == name {
+				return i
+			}
+		}
+		return -1
+	}
+	oi, ni := fieldIdx(opField), fieldIdx(nameField)
+	if oi < 0 || ni < 0 {
+		return nil, false
+	}
+	var rows []nameRow
+	for _, e := range lit.Elts {
+		cl, ok := e.(*ast.CompositeLit)
+		if !ok {
+			return nil, false
+		}
+		var opE, nameE ast.Expr
+		for i, fe := range cl.Elts {
+			if kv, ok := fe.(*ast.KeyValueExpr); ok {
+				if id, ok := kv.Key.(*ast.Ident); ok {
+					if id.Name == opField {
+						opE = kv.Value
+					} else if id.Name == nameField {
+						nameE = kv.Value
+					}
+				}
+			} else {
+				if i == oi {
+					opE = fe
+				}
+				if i == ni {
+					nameE = fe
+				}
+			}
+		}
+		if opE == nil || nameE == nil {
+			return nil, false
+		}
+		bit, okb := v.constVal(opE)
+		tv, okn := v.pkg.TypesInfo.Types[nameE]
+		if !okb || !okn || tv.Value == nil || tv.Value.Kind() != constant.String {
+			return nil, false
+		}
+		rows = append(rows, nameRow{bit, prefix + constant.StringVal(tv.Value) + suffix})
+	}
+	return rows, true
+}
+
+func rootIdent(e ast.Expr) *ast.Ident {
+	for {
+		switch x := e.(type) {
+		case *ast.Ident:
+			return x
+		case *ast.IndexExpr:
+			e = x.X
+		case *ast.SelectorExpr:
+			e = x.X
+		case *ast.ParenExpr:
+			e = x.X
+		default:
+			return nil
+		}
+	}
 }
 
 // ---------------------------------------------------------------- emit
@@ -490,7 +663,53 @@ func (v *pkgView) switchOf(recv, name string) string {
 	var cases []string
 	def := uint64(0)
 	seenDefault := false
-	if len(fd.Body.List) != 2 {
+	body := fd.Body.List
+	// the single-exit spelling: var r T; switch x { case K: r = V … }; return r   (r starts at the zero value)
+	resVar := ""
+	if len(body) == 3 {
+		if ds, okd := body[0].(*ast.DeclStmt); okd {
+			if gd, okg := ds.Decl.(*ast.GenDecl); okg && len(gd.Specs) == 1 {
+				if vs, okv := gd.Specs[0].(*ast.ValueSpec); okv && len(vs.Names) == 1 && len(vs.Values) == 0 {
+					if ret, okr := body[2].(*ast.ReturnStmt); okr && len(ret.Results) == 1 && v.src(ret.Results[0]) == vs.Names[0].Name {
+						resVar = vs.Names[0].Name
+						body = body[1:2]
+					}
+				}
+			}
+		}
+	}
+	if resVar != "" {
+		sw, oks := body[0].(*ast.SwitchStmt)
+		if !oks || sw.Init != nil || v.src(sw.Tag) != arg {
+			ok = false
+		} else {
+			for _, c := range sw.Body.List {
+				cc := c.(*ast.CaseClause)
+				if cc.List == nil || len(cc.Body) != 1 {
+					ok = false
+					continue
+				}
+				as, oka := cc.Body[0].(*ast.AssignStmt)
+				if !oka || as.Tok != token.ASSIGN || len(as.Lhs) != 1 || len(as.Rhs) != 1 || v.src(as.Lhs[0]) != resVar {
+					ok = false
+					continue
+				}
+				val, okv := v.constVal(as.Rhs[0])
+				if !okv {
+					ok = false
+					continue
+				}
+				for _, k := range cc.List {
+					kv, okk := v.constVal(k)
+					if !okk {
+						ok = false
+						continue
+					}
+					cases = append(cases, fmt.Sprintf("(%d, %d)", kv, val))
+				}
+			}
+		}
+	} else if len(fd.Body.List) != 2 {
 		ok = false
 	} else {
 		sw, oks := fd.Body.List[0].(*ast.SwitchStmt)
@@ -537,6 +756,18 @@ func (v *pkgView) switchOf(recv, name string) string {
 	}
 	_ = seenDefault
 	return fmt.Sprintf("{| sw_cases := %s; sw_default := %d; sw_ok := %v |}", list(cases), def, ok)
+}
+
+// retIdent: the identifier a function returns at its end ("e" in `return e`), or def
+func retIdent(fd *ast.FuncDecl, def string) string {
+	if b := funcBody(fd); len(b) > 0 {
+		if ret, ok := b[len(b)-1].(*ast.ReturnStmt); ok && len(ret.Results) == 1 {
+			if id, ok := ret.Results[0].(*ast.Ident); ok {
+				return id.Name
+			}
+		}
+	}
+	return def
 }
 
 func must(err error) {
@@ -622,7 +853,7 @@ func main() {
 		// inotify newEvent(name, mask, cookie)
 		if fd := lin.findFunc("inotify", "newEvent"); fd != nil {
 			mask := lin.paramName(fd, 1)
-			rows, posts := lin.table(funcBody(fd), "e.Op", &condCtx{v: lin, subjects: map[string]bool{mask: true}, hasShape: hasShape}, hasShape)
+			rows, posts := lin.table(funcBody(fd), retIdent(fd, "e")+".Op", &condCtx{v: lin, subjects: map[string]bool{mask: true}, hasShape: hasShape}, hasShape)
 			emitTable("inotify_newEvent", rows, posts)
 		} else {
 			emitTable("inotify_newEvent", []string{"RUnrecognised \"inotify.newEvent not found\"%string"}, nil)
@@ -675,7 +906,7 @@ func main() {
 		// kqueue newEvent(name, linkName, mask)
 		if fd := bsd.findFunc("kqueue", "newEvent"); fd != nil {
 			mask := bsd.paramName(fd, 2)
-			rows, posts := bsd.table(funcBody(fd), "e.Op", &condCtx{v: bsd, subjects: map[string]bool{mask: true}, hasShape: hasShape}, hasShape)
+			rows, posts := bsd.table(funcBody(fd), retIdent(fd, "e")+".Op", &condCtx{v: bsd, subjects: map[string]bool{mask: true}, hasShape: hasShape}, hasShape)
 			emitTable("kqueue_newEvent", rows, posts)
 		} else {
 			emitTable("kqueue_newEvent", []string{"RUnrecognised \"kqueue.newEvent not found\"%string"}, nil)
@@ -688,14 +919,22 @@ func main() {
 		// windows
 		if fd := win.findFunc("readDirChangesW", "newEvent"); fd != nil {
 			mask := win.paramName(fd, 1)
-			rows, posts := win.table(funcBody(fd), "e.Op", &condCtx{v: win, subjects: map[string]bool{mask: true}, hasShape: hasShape}, hasShape)
+			rows, posts := win.table(funcBody(fd), retIdent(fd, "e")+".Op", &condCtx{v: win, subjects: map[string]bool{mask: true}, hasShape: hasShape}, hasShape)
 			emitTable("windows_newEvent", rows, posts)
 		} else {
 			emitTable("windows_newEvent", []string{"RUnrecognised \"readDirChangesW.newEvent not found\"%string"}, nil)
 		}
 		if fd := win.findFunc("readDirChangesW", "toWindowsFlags"); fd != nil {
 			mask := win.paramName(fd, 0)
-			rows, posts := win.table(funcBody(fd), "m", &condCtx{v: win, subjects: map[string]bool{mask: true}, hasShape: hasShape}, hasShape)
+			acc := "m" // the accumulator is whatever the function returns at its end
+			if b := funcBody(fd); len(b) > 0 {
+				if ret, ok := b[len(b)-1].(*ast.ReturnStmt); ok && len(ret.Results) == 1 {
+					if id, ok := ret.Results[0].(*ast.Ident); ok {
+						acc = id.Name
+					}
+				}
+			}
+			rows, posts := win.table(funcBody(fd), acc, &condCtx{v: win, subjects: map[string]bool{mask: true}, hasShape: hasShape}, hasShape)
 			emitTable("windows_toWindowsFlags", rows, posts)
 		} else {
 			emitTable("windows_toWindowsFlags", []string{"RUnrecognised \"toWindowsFlags not found\"%string"}, nil)
